@@ -18,6 +18,17 @@ CHECKS = {
          'stateless DFS over schedules of the instrumented implementation, deviation-bounded, happens-before state caching'),
 }
 
+DET = 'bounded-exhaustive enumeration of inputs on the instrumented implementation (deterministic schedule, virtual clock) against a Go reference model'
+CHECKS.update({
+ 'C01': ('model_checking', 'all arrival sequences (length<=4/5 over 10 boundary timestamps) x sizes x MAXOUTOFORDERNESS x feed policy x keys through the real engine against ref.Tumbling, plus all schedules (<=1/2 deviations) of ingest vs trigger/watermark goroutines on the window object for fixed sequences', 'DESIGN.md 3/C01', SEQ_NOTE + '; ' + SCHED_NOTE, DET + ' + stateless schedule DFS on the window object'),
+ 'C02': ('model_checking', 'all event scripts (length<=4/5 over on-time/late/too-late timestamps and garbage rows) x 3 event-time window kinds x MAXOUTOFORDERNESS x ALLOWEDLATENESS on the real engine under the eager schedule; monitors for early firing, on-time loss, late-update contents/window_id, too-late and garbage rows (with/without differential)', 'DESIGN.md 3/C02', SEQ_NOTE, DET + ' and per-delivery monitors'),
+ 'C03': ('model_checking', 'all value sequences (length<=4/6 over numbers, NULL, missing) for every listed aggregate, percentile/nth_value, expression arguments, all ordered batch pairs, forward/reverse shared-instance histories, two interleaved groups; compared with ref.Agg', 'DESIGN.md 3/C03', SEQ_NOTE, DET),
+ 'C04': ('model_checking', '15 key-tuple alphabets (separator-like strings, NULL marker text, empty string, NULL, missing, numbers, upper(k); 0..3 columns) x 4 window kinds x all row sequences of length<=4/5; delivered (group,ids) multiset must equal the typed-tuple reference grouping', 'DESIGN.md 3/C04', SEQ_NOTE, DET),
+ 'C08': ('model_checking', 'as C01 for sliding windows: 5 size/slide pairs (dividing, not dividing, equal, slide>size) x MAXOUTOFORDERNESS x feed policy against ref.Sliding, plus schedule exploration of the window object', 'DESIGN.md 3/C08', SEQ_NOTE + '; ' + SCHED_NOTE, DET + ' + stateless schedule DFS on the window object'),
+ 'C09': ('model_checking', 'all key sequences (length<=7/9 over 3 keys, canonical) x N x 1|2 grouping columns x eager|lazy feed against the per-key batching reference, plus all schedules (<=1/2 deviations) of producer, processor, counting-window goroutine and consumer for fixed sequences', 'DESIGN.md 3/C09', SEQ_NOTE + '; ' + SCHED_NOTE, DET + ' + stateless schedule DFS of the full pipeline'),
+ 'C10': ('model_checking', 'all per-key timestamp sequences (length<=4/5 over gaps below/at/above the timeout and out-of-order arrivals) x timeout x MAXOUTOFORDERNESS x 1..2 keys under both extreme feed policies; oracle = the stated session constraints and eager==lazy for in-order input', 'DESIGN.md 3/C10', SEQ_NOTE, DET + ' under two feed schedules'),
+})
+
 NA_REASON = {}
 
 def main():
